@@ -53,6 +53,7 @@ func init() {
 		"CountGet":               zzCountGet,
 		"StubCalls":              zzStubCalls,
 		"Ticks":                  zzTicks,
+		"TicksLeft":              func(fr *frame, args []value) value { return fr.m.tickBudget },
 		"AllowMainBlock":         zzAllowMainBlock,
 		"BlockForever":           zzBlockForever,
 		"WaitUntil":              zzWaitUntil,
